@@ -430,6 +430,11 @@ func (_this *Writer) WriteBigFloat(value *big.Float) {
 		_this.WriteFloat(asFloat)
 		return
 	}
+	if accuracy == big.Exact && !math.IsInf(asFloat, 0) {
+		// Same spelling as a float64 of the same value, which is what this text decodes to
+		_this.WriteFloat(asFloat)
+		return
+	}
 
 	var buff [64]byte
 	used := value.Append(buff[:0], 'x', -1)
